@@ -33,3 +33,12 @@ package config
 //@   trusted
 //@   pure
 //@   ensures result >= 1
+
+// ---- C19: namespace configuration reloads. The OPL watcher keeps one reader per watched
+// file and re-parses every file on every event.
+//@ func (*oplConfigWatcher).parseFiles
+//@   props C19 C13
+//@   noframe
+//@   requires nw != nil && nw.logger != nil
+//@   callsite set requires[C19] keep-last-good: len(errs) == 0
+//@   loop 1 step[C19] stored-reader-stays-readable: !rdconsumed(reader)
